@@ -329,6 +329,12 @@ def project(v, spec=None):
                     pairs.append([T.S(n), project(x, spec)])
                     continue
                 inner = []
+                items_ = [it if kind == 'list' else it[1] for it in x[1]]
+                if any(not [b for a, b in xv[2] if a == keyp] for xv in items_):
+                    # an item without its key attribute (a defaulted parameter that
+                    # was left out): it cannot be written in the indexed form
+                    pairs.append([T.S(n), project(x, spec)])
+                    continue
                 for it in x[1]:
                     xv = it if kind == 'list' else it[1]
                     key = [b for a, b in xv[2] if a == keyp][0]
